@@ -122,7 +122,10 @@ func CheckGangs(w *World, rec *CycleRecord) ([]Finding, GangFacts) {
 		// A set that was already partial before the cycle (members terminating or lost outside the scheduler's
 		// control) may be left alone, moved or evicted; but a bind into it must complete it, and a complete set
 		// must not be broken.
-		if a.retained != 0 && a.retained < min && (a.bound > 0 || a.activeBefore >= min) {
+		// (when no member stays put or is bound - every active member was evicted, some of them nominated again
+		// elsewhere - the set is evicted as a whole; the moved members are nominations, not running pods)
+		staying := a.retained - a.movedN
+		if staying > 0 && a.retained < min && (a.bound > 0 || a.activeBefore >= min) {
 			out = append(out, Finding{"c03-pod-set-partially-running", fmt.Sprintf(
 				"pod set %s/%q (minimum %d) is left with %d active pods after the cycle's decisions: %v",
 				k.Workload, k.Set, min, a.retained, a.pods), rec.Index})
@@ -138,13 +141,14 @@ func CheckGangs(w *World, rec *CycleRecord) ([]Finding, GangFacts) {
 	}
 	sort.Strings(wls)
 	for _, wl := range wls {
-		evicted, retainedTotal, bound, nominated := 0, 0, 0, 0
+		evicted, retainedTotal, stayingTotal, bound, nominated := 0, 0, 0, 0, 0
 		var below, waiting []string
 		var desc []string
 		for _, k := range byWorkload[wl] {
 			a := sets[k]
 			evicted += a.evictedActive
 			retainedTotal += a.retained
+			stayingTotal += a.retained - a.movedN
 			bound += a.bound
 			nominated += a.nominated
 			if a.retained < mins[k] && (a.activeBefore >= mins[k] || a.bound > 0) {
@@ -155,7 +159,9 @@ func CheckGangs(w *World, rec *CycleRecord) ([]Finding, GangFacts) {
 			}
 			desc = append(desc, a.pods...)
 		}
-		if evicted > 0 && len(below) > 0 && retainedTotal > 0 {
+		// (a workload of which nothing stays put - every active pod evicted, some nominated again elsewhere - is
+		// evicted as a whole)
+		if evicted > 0 && len(below) > 0 && stayingTotal > 0 {
 			out = append(out, Finding{"c03-workload-partially-evicted", fmt.Sprintf(
 				"workload %s lost %d active pods; pod sets below minimum: %v, yet %d pods stay active: %v", wl, evicted, below, retainedTotal, desc), rec.Index})
 		}
